@@ -8,6 +8,7 @@ Confirms a seeded change produced by an independent agent and runs our checks ag
 """
 import json, os, re, shutil, subprocess, sys, time
 V = os.path.dirname(os.path.dirname(os.path.abspath(__file__)))
+REPO = os.environ.get("VERIF_REPO", "/repo")   # scratch copy for parallel confirmation runs; recorded results always name the checks
 ENV = dict(os.environ, GOFLAGS="-mod=mod", GOPROXY="off", GOSUMDB="off", GOTOOLCHAIN="local")
 
 def sh(cmd, cwd=None, timeout=1200, env=ENV):
@@ -27,10 +28,10 @@ def main():
     pkg = re.search(r"^package (\w+)", open(demo).read(), re.M).group(1)
     pkgdir = {"packet": ".", "fastlog": "fastlog", "arp_spoofer": "handlers/arp_spoofer", "dhcp4_spoofer": "handlers/dhcp4_spoofer",
               "dns_naming": "handlers/dns_naming", "icmp_spoofer": "handlers/icmp_spoofer"}[pkg.replace("_test", "")]
-    wt = "/tmp/seedcheck"
-    sh(f"git -C /repo worktree remove --force {wt}")
+    wt = f"/tmp/seedcheck{os.getpid()}"
+    sh(f"git -C {REPO} worktree remove --force {wt}")
     shutil.rmtree(wt, ignore_errors=True)
-    rc, o = sh(f"git -C /repo worktree add -q --detach {wt} HEAD")
+    rc, o = sh(f"git -C {REPO} worktree add -q --detach {wt} HEAD")
     res = {"id": sid, "property": prop, "meta": meta_txt.strip(), "ran": []}
     try:
         rc, o = sh(f"git apply {diff}", cwd=wt)
@@ -54,10 +55,10 @@ def main():
         res["demo_with_tail"] = o1[-300:]
         res["demo_without_tail"] = o2[-300:]
     finally:
-        sh(f"git -C /repo worktree remove --force {wt}")
+        sh(f"git -C {REPO} worktree remove --force {wt}")
         shutil.rmtree(wt, ignore_errors=True)
     # our checks against the change
-    rc, o = sh(f"git -C /repo apply {diff}")
+    rc, o = sh(f"git -C {REPO} apply {diff}")
     assert rc == 0, o
     try:
         for ck in checks:
@@ -70,7 +71,7 @@ def main():
                 replay = "".join(open(m.group(1)).readlines()[:6])[:700]
             res["ran"].append({"check": ck, "exit": rc, "lines": [l[:200] for l in lines][:6], "wall_s": round(time.time() - t0, 1), "first_replay_head": replay})
     finally:
-        sh("git -C /repo checkout -- .")
+        sh(f"git -C {REPO} checkout -- .")
     res["caught_by"] = [r["check"] for r in res["ran"] if r["exit"] == 1]
     d = os.path.join(V, "seeded", sid)
     os.makedirs(d, exist_ok=True)
